@@ -46,8 +46,17 @@ type MonBackend struct {
 	Decide func(c Call) error // outcome of write calls (nil = success)
 	// Stores: when set for a ledger name, read methods are served by the real *ledgerstore.Store (on a recording driver)
 	Stores map[string]*ledgerstore.Store
-	// LastQuery: the query object the handler built for the last list call (C17 cursor round trips)
+	// Engine: when set, write methods are executed by it (a real command.Commander) instead of being scripted
+	Engine WriteEngine
 	nextTx int64
+}
+
+// WriteEngine: the four write methods of backend.Ledger (implemented by *command.Commander).
+type WriteEngine interface {
+	CreateTransaction(ctx context.Context, parameters command.Parameters, data ledger.RunScript) (*ledger.Transaction, error)
+	RevertTransaction(ctx context.Context, parameters command.Parameters, id *big.Int, force bool) (*ledger.Transaction, error)
+	SaveMeta(ctx context.Context, parameters command.Parameters, targetType string, targetID any, m metadata.Metadata) error
+	DeleteMetadata(ctx context.Context, parameters command.Parameters, targetType string, targetID any, key string) error
 }
 
 func (b *MonBackend) store(name string) *ledgerstore.Store {
@@ -164,6 +173,14 @@ func (l *monLedger) IsDatabaseUpToDate(ctx context.Context) (bool, error) { retu
 
 func (l *monLedger) CreateTransaction(ctx context.Context, p command.Parameters, data ledger.RunScript) (*ledger.Transaction, error) {
 	c := Call{Ledger: l.name, Method: "CreateTransaction", Params: p, Script: &data}
+	if l.b.Engine != nil {
+		l.b.record(c)
+		tx, err := l.b.Engine.CreateTransaction(ctx, p, data)
+		if err != nil {
+			return nil, engine.NewCommandError(err) // as engine.Ledger does
+		}
+		return tx, nil
+	}
 	if err := l.decide(c); err != nil {
 		return nil, err
 	}
@@ -176,6 +193,14 @@ func (l *monLedger) CreateTransaction(ctx context.Context, p command.Parameters,
 }
 func (l *monLedger) RevertTransaction(ctx context.Context, p command.Parameters, id *big.Int, force bool) (*ledger.Transaction, error) {
 	c := Call{Ledger: l.name, Method: "RevertTransaction", Params: p, ID: id, Force: force}
+	if l.b.Engine != nil {
+		l.b.record(c)
+		tx, err := l.b.Engine.RevertTransaction(ctx, p, id, force)
+		if err != nil {
+			return nil, engine.NewCommandError(err)
+		}
+		return tx, nil
+	}
 	if err := l.decide(c); err != nil {
 		return nil, err
 	}
@@ -190,9 +215,17 @@ func (l *monLedger) RevertTransaction(ctx context.Context, p command.Parameters,
 	return ledger.NewTransaction().WithID(big.NewInt(nid)).WithMetadata(m), nil
 }
 func (l *monLedger) SaveMeta(ctx context.Context, p command.Parameters, targetType string, targetID any, m metadata.Metadata) error {
+	if l.b.Engine != nil {
+		l.b.record(Call{Ledger: l.name, Method: "SaveMeta", Params: p, Target: targetType, TID: targetID, Meta: m})
+		return engine.NewCommandError(l.b.Engine.SaveMeta(ctx, p, targetType, targetID, m))
+	}
 	return l.decide(Call{Ledger: l.name, Method: "SaveMeta", Params: p, Target: targetType, TID: targetID, Meta: m})
 }
 func (l *monLedger) DeleteMetadata(ctx context.Context, p command.Parameters, targetType string, targetID any, key string) error {
+	if l.b.Engine != nil {
+		l.b.record(Call{Ledger: l.name, Method: "DeleteMetadata", Params: p, Target: targetType, TID: targetID, Key: key})
+		return engine.NewCommandError(l.b.Engine.DeleteMetadata(ctx, p, targetType, targetID, key))
+	}
 	return l.decide(Call{Ledger: l.name, Method: "DeleteMetadata", Params: p, Target: targetType, TID: targetID, Key: key})
 }
 
